@@ -65,62 +65,82 @@ def predicate_signs(rep, where, sym, label, table, line, on_difference=False):
 
 
 class ValueFlow(object):
-    """In an unsummarised handler, robustness values may be compared, copied, negated, passed to min/max -- never added or scaled."""
+    """In an unsummarised handler, robustness values may be compared, copied, negated, passed to min/max -- never added or scaled.
+    Discrete time: names are typed by flow as LIST (of robustness values) or SCALAR (one value); `+` on lists is concatenation."""
 
     def __init__(self, fnode, dense):
         self.f = fnode
         self.dense = dense
         self.typer = norm.ValueTyper(fnode) if dense else None
-        self.vals = set()  # discrete: names holding a robustness value or a list of them
+        self.kind = {}   # name / self.attr -> 'list' | 'scalar'
         if not dense:
-            for p in [a.arg for a in fnode.args.args]:
-                if p.startswith('sample'):
-                    self.vals.add(p)
-            for _ in range(4):
+            if fnode.name in ('update', 'update_final'):
+                for p in [a.arg for a in fnode.args.args[1:]]:
+                    self.kind[p] = 'scalar'       # an online operation is stepped with one sample per operand
+            for _ in range(5):
                 for n in ast.walk(fnode):
                     if isinstance(n, ast.Assign) and len(n.targets) == 1:
                         t = n.targets[0]
                         key = t.id if isinstance(t, ast.Name) else (ast.unparse(t) if isinstance(t, ast.Attribute) else None)
-                        if key and self.is_val(n.value):
-                            self.vals.add(key)
-                    if isinstance(n, ast.For) and isinstance(n.target, ast.Name) and self.is_val(n.iter):
-                        self.vals.add(n.target.id)
-                    if isinstance(n, ast.Call) and isinstance(n.func, ast.Attribute) and n.func.attr == 'append' and n.args and self.is_val(n.args[0]):
-                        self.vals.add(ast.unparse(n.func.value))
+                        k = self.kind_of(n.value)
+                        if key and k:
+                            self._join(key, k)
+                    if isinstance(n, ast.AugAssign) and isinstance(n.target, ast.Name):
+                        k = self.kind_of(n.value)
+                        if k:
+                            self._join(n.target.id, k)
+                    if isinstance(n, ast.For) and isinstance(n.target, ast.Name) and self.kind_of(n.iter) == 'list':
+                        self._join(n.target.id, 'scalar')
+                    if isinstance(n, ast.Call) and isinstance(n.func, ast.Attribute) and n.func.attr in ('append', 'appendleft', 'insert') and n.args \
+                            and self.kind_of(n.args[-1]):
+                        self._join(ast.unparse(n.func.value), 'list')
+
+    def _join(self, key, k):
+        if self.kind.get(key) != 'list':
+            self.kind[key] = k
+
+    def kind_of(self, e):
+        """'list' / 'scalar' if e is derived from operand robustness values, else None"""
+        if isinstance(e, ast.Call) and isinstance(e.func, ast.Attribute) and e.func.attr == 'visit':
+            return 'list'
+        if isinstance(e, ast.Name):
+            return self.kind.get(e.id)
+        if isinstance(e, ast.Attribute):
+            return self.kind.get(ast.unparse(e))
+        if isinstance(e, ast.Subscript):
+            k = self.kind_of(e.value)
+            if k == 'list':
+                return 'list' if isinstance(e.slice, ast.Slice) else 'scalar'
+            return None
+        if isinstance(e, ast.Call) and isinstance(e.func, ast.Name) and e.func.id in ('min', 'max'):
+            return 'scalar' if any(self.kind_of(a) for a in e.args) else None
+        if isinstance(e, ast.Call) and isinstance(e.func, ast.Name) and e.func.id in ('list', 'reversed', 'tuple') and e.args:
+            return self.kind_of(e.args[0])
+        if isinstance(e, ast.BinOp) and isinstance(e.op, ast.Add):
+            l, r = self.kind_of(e.left), self.kind_of(e.right)
+            if 'list' in (l, r):
+                return 'list'     # concatenation (padding + operand)
+            return 'scalar' if (l or r) else None
+        if isinstance(e, ast.BinOp):
+            return 'scalar' if (self.kind_of(e.left) == 'scalar' or self.kind_of(e.right) == 'scalar') else None
+        if isinstance(e, ast.UnaryOp):
+            return self.kind_of(e.operand)
+        if isinstance(e, ast.ListComp):
+            return 'list' if self.kind_of(e.elt) else None
+        if isinstance(e, (ast.List, ast.Tuple)):
+            return 'list' if any(self.kind_of(x) for x in e.elts) else None
+        return None
 
     def is_val(self, e):
         if self.dense:
             return self.typer.is_value(e)
-        if isinstance(e, ast.Call) and isinstance(e.func, ast.Attribute) and e.func.attr == 'visit':
-            return True
-        if isinstance(e, ast.Name):
-            return e.id in self.vals
-        if isinstance(e, ast.Attribute):
-            return ast.unparse(e) in self.vals
-        if isinstance(e, ast.Subscript):
-            return self.is_val(e.value)
-        if isinstance(e, ast.Call) and isinstance(e.func, ast.Name) and e.func.id in ('min', 'max'):
-            return any(self.is_val(a) for a in e.args)
-        if isinstance(e, ast.BinOp) and isinstance(e.op, ast.Add):
-            # list concatenation keeps value-ness (padding + sample)
-            return self.is_val(e.left) or self.is_val(e.right)
-        if isinstance(e, ast.UnaryOp):
-            return self.is_val(e.operand)
-        if isinstance(e, ast.ListComp):
-            return self.is_val(e.elt)
-        return False
+        return self.kind_of(e) is not None
 
     def scalar_val(self, e):
         """a single robustness value (not a list)"""
         if self.dense:
             return self.typer.is_value(e)
-        if isinstance(e, ast.Subscript) and not isinstance(e.slice, ast.Slice):
-            return self.is_val(e.value)
-        if isinstance(e, ast.Name):
-            return e.id in self.vals and not e.id.startswith(('sample', 'buffer'))
-        if isinstance(e, ast.Call) and isinstance(e.func, ast.Name) and e.func.id in ('min', 'max'):
-            return any(self.is_val(a) for a in e.args)
-        return False
+        return self.kind_of(e) == 'scalar'
 
     def violations(self):
         out = []
@@ -313,10 +333,15 @@ def _dense_online_predicate(ix, opc):
         return ('unknown', 'difference operation not pointwise')
     # operand order of the call self.sub.update(left, right)
     params = [a.arg for a in f.node.args.args[1:3]]
+    operands = nf[1]
     for n in ast.walk(f.node):
         if isinstance(n, ast.Call) and ast.unparse(n.func) == 'self.sub.update':
-            if [ast.unparse(a) for a in n.args[:2]] != params:
-                return ('unknown', 'difference computed on swapped operands')
+            got = [ast.unparse(a) for a in n.args[:2]]
+            if got == params[::-1]:
+                operands = densesum.reorder(nf[1], [1, 0])     # the table is applied to right - left
+            elif got != params:
+                return ('unknown', 'difference computed on %s' % got)
+    nf = (nf[0], operands)
     import copy
     fn = copy.deepcopy(f.node)
     fn.body = [s for s in fn.body if not (isinstance(s, ast.Assign) and ast.unparse(s.targets[0]).startswith('self.'))]
